@@ -311,6 +311,17 @@ class HistScn:
                             bad.append((step, "taken-id-accepted", spec))
                         objs.append(gw)
                         live.append(len(objs) - 1)
+                    elif op == "ea":
+                        # iterate over the group and exit every member met on the way: iteration yields every
+                        # member that was there when it started, in index order
+                        want_ids = [objs[i].id for i in live]
+                        seen_ids = []
+                        for x in g:
+                            seen_ids.append(x.id)
+                            x.exit()
+                        if seen_ids != want_ids:
+                            bad.append((step, "iteration-while-exiting", seen_ids, want_ids))
+                        live[:] = []
                     else:
                         k = int(op[1])
                         objs[k].exit()
@@ -353,7 +364,7 @@ def hist_chunk(chunk):
 
 
 def histories(depth):
-    alphabet = ["ma", "mb", "mx", "e0", "e1", "e2"]
+    alphabet = ["ma", "mb", "mx", "e0", "e1", "e2", "ea"]
     out = []
     for d in range(1, depth + 1):
         for seq in itertools.product(alphabet, repeat=d):
@@ -362,6 +373,8 @@ def histories(depth):
             for op in seq:
                 if op[0] == "m":
                     made += 1  # an upper bound: a refused call creates nothing, the scenario copes
+                elif op == "ea":
+                    continue
                 elif int(op[1]) >= made:
                     ok = False
                     break
@@ -380,6 +393,8 @@ def _valid(seq):
                 continue
             ids.append(want if want is not None else f"auto{len(ids)}")
             live.append(len(ids) - 1)
+        elif op == "ea":
+            live = []
         else:
             k = int(op[1])
             if k >= len(ids):
